@@ -10,6 +10,7 @@ import (
 	"reflect"
 	"sort"
 	"strings"
+	"verif/internal/obs"
 
 	"github.com/dave/dst"
 	"github.com/dave/dst/decorator"
@@ -41,6 +42,25 @@ func init() {
 
 type walkLog struct {
 	events []dst.Node // node for enter, nil for exit
+}
+
+// depthVisitor hands every subtree to a new visitor that knows its depth, and declines at a limit.
+type depthVisitor struct {
+	depth int
+	log   *[]string
+	limit int
+}
+
+func (v depthVisitor) Visit(n dst.Node) dst.Visitor {
+	if n == nil {
+		*v.log = append(*v.log, fmt.Sprintf("%d:nil", v.depth))
+		return nil
+	}
+	*v.log = append(*v.log, fmt.Sprintf("%d:%p", v.depth, n))
+	if v.depth >= v.limit {
+		return nil
+	}
+	return depthVisitor{v.depth + 1, v.log, v.limit}
 }
 
 type logVisitor struct {
@@ -129,6 +149,32 @@ func c13CheckTree(c *fw.Ctx, label string, root dst.Node, npred int) []dst.Node 
 		c.Observe("node_types", refl.TypeName(n))
 	}
 	c.Count("nodes_visited", int64(len(seq)))
+
+	// visitor threading: Walk continues with the visitor that Visit returned (here one per depth,
+	// declining below a depth limit) and makes the closing Visit(nil) call on that visitor too
+	if !isPkg {
+		for _, limit := range []int{2, 5, 1 << 30} {
+			var got, want []string
+			dst.Walk(depthVisitor{0, &got, limit}, root)
+			var exp func(n dst.Node, depth int)
+			exp = func(n dst.Node, depth int) {
+				want = append(want, fmt.Sprintf("%d:%p", depth, n))
+				if depth >= limit {
+					return
+				}
+				for _, ch := range refl.DstChildren(n) {
+					exp(ch.Node, depth+1)
+				}
+				want = append(want, fmt.Sprintf("%d:nil", depth+1))
+			}
+			exp(root, 0)
+			if i := obs.FirstDiff(got, want); i >= 0 {
+				c.Violate("visitor-threading", "visitor-threading", fmt.Sprintf("%s (depth limit %d): event %d is %q, expected %q (depth:node as seen by per-depth visitors; %d vs %d events)", label, limit, i, at(got, i), at(want, i), len(got), len(want)), "")
+				break
+			}
+			c.Count("visitor_threading_events", int64(len(got)))
+		}
+	}
 
 	// bracket discipline with Walk
 	lg := &walkLog{}
